@@ -39,13 +39,19 @@ def make_exception(cls_name, tag):
         # e.g. a bare next() on an exhausted iterator inside a user step; inside generators PEP 479 turns it into a
         # RuntimeError whose __cause__ is this instance (accepted as "wrapped")
         return StopIteration('injected ' + tag)
+    if cls_name == 'UnicodeDecodeError':
+        # what a source that decodes as it reads raises on bad bytes (the reader underneath has a wrapper of its own for it)
+        return UnicodeDecodeError('utf-8', b'\xff' + tag.encode()[:8], 0, 1, 'injected ' + tag)
+    if cls_name == 'UnicodeEncodeError':
+        return UnicodeEncodeError('ascii', 'ż' + tag[:8], 0, 1, 'injected ' + tag)
     if cls_name == 'DFValidationError':
         return d.ValidationError('res', {'a': 1}, 0, tse.CastError('inner'))
     raise KeyError(cls_name)
 
 
 CLASSES = ['ValueError', 'KeyError', 'AssertionError', 'PrivateError', 'RuntimeError', 'OSError', 'CastError',
-           'CastError_with_errors', 'TSValidationError', 'UniqueKeyError', 'DFValidationError', 'StopIteration']
+           'CastError_with_errors', 'TSValidationError', 'UniqueKeyError', 'DFValidationError', 'StopIteration',
+           'UnicodeDecodeError', 'UnicodeEncodeError']
 
 SHAPES = ['package_fn', 'rows_fn', 'row_fn', 'processor']
 
